@@ -84,6 +84,8 @@ impl<'a, R: Read> Lexer<Scanner<'a, R>> {
     }
 
     pub(crate) fn read(&mut self) -> Result<&LexerToken, Error> {
+        #[cfg(feature = "verif-hooks")]
+        crate::verif_hooks::tick("filter::Lexer::read");
         while !self.scanner.is_eof {
             match self.scanner.cur {
                 // White spaces
